@@ -171,11 +171,13 @@ class ContractMixin(CallMixin):
         f = Frame(None, dict(zip(names, vals)), st.frame, True)
         st.frames.append(f)
         self.push_binders(st, binders)
+        ns_saved = st.ghost.get("__nosplit__", ())
         self.mark_nosplit(st, binders)
         try:
             body = self.cond(st, lam.body)
         finally:
             self.pop_binders(st, len(binders))
+            st.ghost["__nosplit__"] = ns_saved
             st.frames.pop()
         return VBool(self.forall(binders, body) if name == "forall" else self.exists(binders, body))
 
